@@ -54,9 +54,133 @@ pub fn respell(s: &mut TypeSpec, d: &mut Dna) {
     }
 }
 
+
+/// every attribute item of a request keyed by its position and trait, with its rendered text and parameter texts
+fn attr_forms(s: &TypeSpec) -> std::collections::BTreeMap<String, (String, Vec<String>)> {
+    let mut m = std::collections::BTreeMap::new();
+    let pkey = |p: &str| p.split(|c: char| !(c.is_alphanumeric() || c == '_')).next().unwrap_or("").replace("rename", "name").replace("expression", "expr");
+    let mut put = |k: String, whole: String, params: Vec<String>| {
+        let mut ps: Vec<String> = params;
+        ps.sort_by_key(|p| pkey(p));
+        m.insert(k, (whole, ps));
+    };
+    for (i, a) in s.traits.iter().enumerate() {
+        let _ = i;
+        put(format!("T/{}/{}", a.tr.name(), a.into_ty.clone().unwrap_or_default()), render_tattr(a), a.params.iter().map(|(p, sp)| render_tattr(&TAttr { tr: Tr::Debug, into_ty: None, params: vec![(p.clone(), *sp)], sp: 0 })).collect());
+    }
+    for (vi, v) in s.variants.iter().enumerate() {
+        for a in &v.attrs {
+            put(format!("V{vi}/{}", a.tr.name()), render_tattr(a), a.params.iter().map(|(p, sp)| render_tattr(&TAttr { tr: Tr::Debug, into_ty: None, params: vec![(p.clone(), *sp)], sp: 0 })).collect());
+        }
+        for (fi, f) in v.fields.iter().enumerate() {
+            for a in &f.attrs {
+                put(format!("F{vi}.{fi}/{}/{}", a.tr.name(), a.into_ty.clone().unwrap_or_default()), render_fattr(a), a.params.iter().map(|(p, sp)| render_fattr(&FAttr { tr: Tr::Clone, into_ty: None, params: vec![(p.clone(), *sp)], sp: 0 })).collect());
+            }
+        }
+    }
+    m
+}
+
+/// the spelling groups in which two renderings of one request differ
+fn groups_exercised(s1: &TypeSpec, s2: &TypeSpec) -> Vec<&'static str> {
+    let mut g: std::collections::BTreeSet<&'static str> = Default::default();
+    let (f1, f2) = (attr_forms(s1), attr_forms(s2));
+    for (k, (w1, p1)) in &f1 {
+        let Some((w2, p2)) = f2.get(k) else { continue };
+        let shorthand = |w: &str| !w.contains('(') && w.contains(" = ");
+        if shorthand(w1) != shorthand(w2) {
+            g.insert("shorthand_vs_long_form");
+        }
+        for (a, b) in p1.iter().zip(p2.iter()) {
+            // strip the synthetic `Debug(` / `Clone(` wrapper
+            let a = a.split_once('(').map(|x| x.1).unwrap_or(a).trim_end_matches(')').to_string();
+            let b = b.split_once('(').map(|x| x.1).unwrap_or(b).trim_end_matches(')').to_string();
+            if a == b {
+                continue;
+            }
+            if a.contains(" = ") != b.contains(" = ") {
+                g.insert("p_eq_v_vs_p_parens_v");
+            }
+            if a.contains('"') != b.contains('"') {
+                g.insert("token_vs_string_literal");
+            }
+            if a.starts_with("rename") != b.starts_with("rename") {
+                g.insert("name_vs_rename");
+            }
+            if a.starts_with("expression") != b.starts_with("expression") {
+                g.insert("expression_vs_expr");
+            }
+            if a.starts_with("ignore") || a.starts_with("new") {
+                g.insert("flag_forms(ignore/new)");
+            }
+            if a.starts_with("bound") && (a.contains("false") || a.contains("\"\"")) {
+                g.insert("bound_false_forms");
+            }
+            if a.contains("false") != b.contains("false") && (a.contains("name") || a.contains("rename")) {
+                g.insert("name_false_vs_empty_string");
+            }
+        }
+    }
+    let order = |s: &TypeSpec| s.traits.iter().map(|a| format!("{}{}", a.tr.name(), a.into_ty.clone().unwrap_or_default())).collect::<Vec<_>>();
+    if order(s1) != order(s2) {
+        g.insert("trait_order");
+    }
+    let porder = |s: &TypeSpec| {
+        let mut o = String::new();
+        for a in &s.traits {
+            o.push_str(&format!("{:?};", a.params.iter().map(|(p, _)| std::mem::discriminant(p)).collect::<Vec<_>>()));
+        }
+        for v in &s.variants {
+            for a in &v.attrs {
+                o.push_str(&format!("{:?};", a.params.iter().map(|(p, _)| std::mem::discriminant(p)).collect::<Vec<_>>()));
+            }
+            for f in &v.fields {
+                let mut at: Vec<&FAttr> = f.attrs.iter().collect();
+                at.sort_by_key(|a| (a.tr, a.into_ty.clone()));
+                for a in at {
+                    o.push_str(&format!("{:?};", a.params.iter().map(|(p, _)| std::mem::discriminant(p)).collect::<Vec<_>>()));
+                }
+            }
+        }
+        o
+    };
+    {
+        let mut t1 = s1.clone();
+        let mut t2 = s2.clone();
+        t1.traits.sort_by_key(|a| (a.tr, a.into_ty.clone()));
+        t2.traits.sort_by_key(|a| (a.tr, a.into_ty.clone()));
+        for v in t1.variants.iter_mut().chain(t2.variants.iter_mut()) {
+            v.attrs.sort_by_key(|a| a.tr);
+        }
+        if porder(&t1) != porder(&t2) {
+            g.insert("parameter_order");
+        }
+    }
+    let layout = |s: &TypeSpec| {
+        let mut o = format!("{}", if s.traits.len() > 1 { s.split % 3 } else { 0 });
+        for v in &s.variants {
+            o.push_str(&format!("{}", if v.attrs.len() > 1 { v.split % 3 } else { 0 }));
+            for f in &v.fields {
+                o.push_str(&format!("{}", if f.attrs.len() > 1 { f.split % 3 } else { 0 }));
+            }
+        }
+        o
+    };
+    if layout(s1) != layout(s2) {
+        g.insert("one_list_vs_several_attributes");
+    }
+    let forder = |s: &TypeSpec| s.variants.iter().flat_map(|v| v.fields.iter().map(|f| f.attrs.iter().map(|a| format!("{}{}", a.tr.name(), a.into_ty.clone().unwrap_or_default())).collect::<Vec<_>>())).collect::<Vec<_>>();
+    if forder(s1) != forder(s2) {
+        g.insert("field_attribute_order");
+    }
+    g.into_iter().collect()
+}
+
 pub struct Pair {
     pub a: String,
     pub b: String,
+    /// which spelling groups of the statement the two renderings actually exercise
+    pub groups: Vec<&'static str>,
     pub field_level_differs: bool,
     pub verdict: Result<(), String>,
     pub both_ok: bool,
@@ -97,6 +221,7 @@ pub fn eval(dna: &[u16]) -> Pair {
         o
     };
     let field_level_differs = inner(&s1) != inner(&s2);
+    let groups = groups_exercised(&s1, &s2);
     let ea = engine::expand_src(&a);
     let eb = engine::expand_src(&b);
     let both_ok = ea.is_ok() && eb.is_ok();
@@ -121,7 +246,7 @@ pub fn eval(dna: &[u16]) -> Pair {
         (Expansion::Panic(_), Expansion::Panic(_)) => Ok(()),
         (x, y) => Err(format!("one spelling is {} and the other {}: A = {:?} / B = {:?}", x.tag(), y.tag(), short(x), short(y))),
     };
-    Pair { a, b, field_level_differs, verdict, both_ok }
+    Pair { a, b, groups, field_level_differs, verdict, both_ok }
 }
 
 fn short(e: &Expansion) -> String {
@@ -175,6 +300,11 @@ pub fn run(ctx: &Ctx) -> i32 {
         }
         if pr.a != pr.b {
             rep.count("renderings_differ", 1);
+        }
+        if pr.both_ok {
+            for g in &pr.groups {
+                rep.class(g);
+            }
         }
         if pr.field_level_differs && pr.both_ok {
             rep.nontrivial.insert(fnv64(&format!("{}\n{}", pr.a, pr.b)));
